@@ -38,6 +38,7 @@ fn main() {
             "F" => enc::run_f(line),
             "I" => enc::run_i(line),
             "M" => mac::run_line(line),
+            "D" => mac::run_first_use(line),
             "C" => conc::run_line(line),
             "P" => pbw::run_line(line),
             w => panic!("unknown scenario kind {}", w),
